@@ -31,7 +31,16 @@ std::string firstDiff(const json &a, const json &b, const std::string &at) {
     return at.empty() ? "/" : at;
 }
 
-void quietHdf5() { H5Eset_auto2(H5E_DEFAULT, nullptr, nullptr); }
+std::string g_phase;
+// HDF5's error stack is not printed; the stack of the most recent failing HDF5 call is kept as text (attached to harness exceptions)
+std::string g_h5err;
+static herr_t walkCb(unsigned n, const H5E_error2_t *e, void *ud) {
+    std::string *o = static_cast<std::string *>(ud);
+    *o += "#" + std::to_string(n) + " " + (e->func_name ? e->func_name : "?") + ":" + std::to_string(e->line) + " " + (e->desc ? e->desc : "") + " | ";
+    return 0;
+}
+static herr_t autoCb(hid_t estack, void *) { std::string t; H5Ewalk2(estack, H5E_WALK_UPWARD, walkCb, &t); g_h5err = t.substr(0, 1500); return 0; }
+void quietHdf5() { H5Eset_auto2(H5E_DEFAULT, autoCb, nullptr); }
 
 int main(int argc, char **argv) {
     Ctx ctx;
@@ -59,7 +68,7 @@ int main(int argc, char **argv) {
         if (it == handlers().end()) res = json{{"v", "nohandler"}, {"m", m}};
         else {
             try { res = it->second(ctx, rec); }
-            catch (const std::exception &e) { res = json{{"v", "harness_exception"}, {"what", e.what()}}; }
+            catch (const std::exception &e) { res = json{{"v", "harness_exception"}, {"what", e.what()}, {"phase", g_phase}, {"h5", g_h5err}}; }
             catch (...) { res = json{{"v", "harness_exception"}, {"what", "unknown"}}; }
         }
         res["i"] = idx;
